@@ -474,6 +474,17 @@ let exec (s : t) (verbose : bool) (f : string array) (obs : string option) : str
        List.iter (fun (k, v) -> Buffer.add_string b (obs_bytes k ^ "=" ^ obs_bytes v ^ ";")) l;
        Printf.sprintf "ok %d %s" (List.length l) (md5hex (Buffer.contents b))
      | Inr e -> "err " ^ eerr_name e) ^ events_str evs
+  | "foldn" ->
+    (* the callback returns false at its n-th invocation (n < 1: at the first) *)
+    let n = max 1 (int_of_string f.(2)) in
+    let ((d, r), evs) = db_fold_n (get_db s) (nat_of_int n) in
+    s.db <- Some d;
+    (match r with
+     | Inl l ->
+       let b = Buffer.create 64 in
+       List.iter (fun (k, v) -> Buffer.add_string b (obs_bytes k ^ "=" ^ obs_bytes v ^ ";")) l;
+       Printf.sprintf "ok %d %s" (List.length l) (md5hex (Buffer.contents b))
+     | Inr e -> "err " ^ eerr_name e) ^ events_str evs
   | "foldw" ->
     (* Fold works on the snapshot taken when it begins: the callback's writes happen, for the model, after it *)
     let ((d, r), evs) = db_fold (get_db s) in
